@@ -31,7 +31,11 @@ if [ ! -f "$CFG/ok" ]; then
   python3 - "$CFG/b/compile_commands.json" "$REPO" >"$CFG/flags.txt" <<'EOF'
 import json,sys,shlex
 cc=json.load(open(sys.argv[1]))
-ent=[e for e in cc if e['file'].endswith('tinyjambu-hash.c')][0]
+lib=[e for e in cc if e['file'].endswith('.c') and 'tinyjambu_static' in (e.get('output','')+e.get('command',''))] or [e for e in cc if e['file'].endswith('.c')]
+ent=lib[0]
+# the source list of the static library, relative to src/ (the build description decides what is part of the library)
+srcs=sorted(set(e['file'].split('/src/',1)[1] for e in lib if '/src/' in e['file']))
+open(sys.argv[1].rsplit('/',2)[0]+'/sources.txt','w').write('\n'.join(srcs)+'\n')
 args=shlex.split(ent['command'])
 out=[];skip=False
 for a in args[1:]:
@@ -91,7 +95,8 @@ if [ ! -x "$OUT" ]; then
     mkdir -p "$T/cfgvol"; grep -v -E 'HAVE_EXPLICIT_BZERO|HAVE_MEMSET_S' "$CFG/config.h" > "$T/cfgvol/config.h"
     INC="-I$REPO/src -I$T/cfgvol"
   fi
-  SRCS=$(cd "$REPO/src" && ls *.c backend/*.c random/*.c)
+  SRCS=$(cat "$CFG/sources.txt")
+  [ -n "$SRCS" ] || SRCS=$(cd "$REPO/src" && ls *.c backend/*.c random/*.c)
   pids=()
   for s in $SRCS; do
     o="$T/o/$(echo "$s" | tr '/' '_' | sed 's/\.c$/.o/')"
@@ -109,24 +114,20 @@ if [ ! -x "$OUT" ]; then
     fi
   done
   for p in "${pids[@]}"; do wait "$p" || { echo "build.sh: compiling the repository failed (variant $VARIANT)" >&2; exit 2; }; done
-  # the flavor the config.h build really selected (prod/hook/san/cfg): read it off the object's imports
-  TO="$T/o/random_tinyjambu-trng-dev-random.o"
-  if [ "$TRNG_MODE" = config ]; then
-    imp=$(nm -u "$TO" | awk '{print $2}')
-    if echo "$imp" | grep -qx getrandom; then TRNG_FLAVOR=getrandom
-    elif echo "$imp" | grep -qx getentropy; then TRNG_FLAVOR=getentropy
-    elif echo "$imp" | grep -qx syscall; then TRNG_FLAVOR=syscall
-    else TRNG_FLAVOR=devurandom; fi
-  fi
+  # the flavor really selected: read it off the objects' imports (before renaming)
+  ( cd "$T/o" && nm -u *.o | awk 'NF==2{print $2}' | sort -u ) > "$T/imports.txt" || true
+  if grep -qx getrandom "$T/imports.txt"; then TRNG_FLAVOR=getrandom
+  elif grep -qx getentropy "$T/imports.txt"; then TRNG_FLAVOR=getentropy
+  elif grep -qx syscall "$T/imports.txt"; then TRNG_FLAVOR=syscall
+  else TRNG_FLAVOR=devurandom; fi
   # symbol report of the untouched objects (C19 side check) before any renaming
   ( cd "$T/o" && for f in *.o; do nm "$f" | awk -v f="$f" '$2 ~ /^[bBdDsScC]$/ {print f, $2, $3}'; done ) > "$T/writable_symbols.txt" || true
-  ( cd "$T/o" && nm -u *.o | awk 'NF==2{print $2}' | sort -u ) > "$T/imports.txt" || true
-  # seams at the libc boundary
-  objcopy --redefine-sym getrandom=verif_os_getrandom --redefine-sym getentropy=verif_os_getentropy --redefine-sym syscall=verif_os_syscall \
-          --redefine-sym open=verif_os_open --redefine-sym open64=verif_os_open64 --redefine-sym read=verif_os_read --redefine-sym close=verif_os_close \
-          --redefine-sym fcntl=verif_os_fcntl --redefine-sym fcntl64=verif_os_fcntl64 --redefine-sym dup=verif_os_dup "$TO"
+  # seams at the libc boundary: OS entropy/file calls and the allocator, in every library object
   for f in "$T"/o/*.o; do
-    objcopy --redefine-sym malloc=verif_lib_malloc --redefine-sym calloc=verif_lib_calloc --redefine-sym realloc=verif_lib_realloc --redefine-sym free=verif_lib_free \
+    objcopy --redefine-sym getrandom=verif_os_getrandom --redefine-sym getentropy=verif_os_getentropy --redefine-sym syscall=verif_os_syscall \
+            --redefine-sym open=verif_os_open --redefine-sym open64=verif_os_open64 --redefine-sym read=verif_os_read --redefine-sym close=verif_os_close \
+            --redefine-sym fcntl=verif_os_fcntl --redefine-sym fcntl64=verif_os_fcntl64 --redefine-sym dup=verif_os_dup \
+            --redefine-sym malloc=verif_lib_malloc --redefine-sym calloc=verif_lib_calloc --redefine-sym realloc=verif_lib_realloc --redefine-sym free=verif_lib_free \
             --redefine-sym posix_memalign=verif_lib_posix_memalign --redefine-sym aligned_alloc=verif_lib_aligned_alloc "$f"
   done
   WRAPS=""
